@@ -17,9 +17,10 @@ CONSTANTS Limits, Thresholds, Stores, ReqXf, RespXf,   \* option / addon alphabe
           ReqSizes, RespSizes,                          \* Content-Length values offered per direction
           ReqFramings, RespFramings,                    \* subsets of {"cl", "chunked"}
           MaxBody, ChunkSizes,
-          EmptyChunkEnds   \* named deviation: TRUE = Http1Client.send / Http1Server.send write "0 CRLF CRLF" for an empty
-                           \* data event on a chunked message, which ends the body for the peer (the code as found,
-                           \* findings_proposed/C07.md); FALSE = empty data events write nothing (the proposed repair)
+          EmptyChunkEnds   \* named deviation: FALSE = empty data events write nothing (the code since /repo commit
+                           \* fe132bb82); TRUE = Http1Client.send / Http1Server.send write "0 CRLF CRLF" for an empty data
+                           \* event of a chunked message, which ends the body for the peer (the code as first found,
+                           \* findings_proposed/C07.md) -- only used to show the clause reachable in the pre-repair model
 VARIABLES c, s, mon, obs
 vars == <<c, s, mon, obs>>
 
